@@ -80,8 +80,8 @@ def run_for(prop, tier, only=None):
             work.close()
         ev.cov["bounds"]["c11"] = ("E3: the real runnable::run and Task::wake_by_ref/wake from the MIR, one thread at a time, atomics on the state word as C11 "
                                    "events, the future as a non-atomic location; client programs: a scheduled task run by T0 || T1 publishes, wakes by "
-                                   "reference and runs the Runnable it obtains; an idle task woken by two such threads (thorough: three threads; the future "
-                                   "completing at the 2nd poll); <= 3 polls per thread, <= 1 CAS retry; no cancel / clone / drop of handles in these programs")
+                                   "reference and runs the Runnable it obtains; an idle task woken by two such threads (thorough: also the future "
+                                   "completing at the runner's 2nd poll); <= 3 polls per thread, <= 1 CAS retry; no cancel / clone / drop of handles in these programs")
         ev.cov["outside_claim"][0] = ("C11 orderings of cancel / handle drops / wake by value / the output hand-over to the Promise (the E3 client programs "
                                       "cover run || wake_by_ref only); interleavings of the Kani part are at operation granularity (sequential atomics)")
         ev.assumptions += ["E3: the scheduling function hands the Runnable to the waking thread, which runs it itself (weakest hand-over: no extra "
